@@ -668,3 +668,20 @@ V("c28-twin-nan-guard-else-form", "C28", "-", "dask_array/slicing/_basic.py",
 V("c10-callable-object-mutates-argument", "C10", "R10.1", "dask_array/_frisky/fused_blockwise.py",
   "    def __call__(self, *dependencies):\n        return _execute_subgraph(self.subgraph, self.outkey, self.inkeys, *dependencies)",
   "    def __call__(self, *dependencies):\n        for d in dependencies:\n            d[...] = 0\n        return _execute_subgraph(self.subgraph, self.outkey, self.inkeys, *dependencies)", expect="_FusedSubgraph.__call__")
+
+# ---------------------------------------------------------------------------- C16
+V("c16-sum-check-dropped", "C16", "R16.2", "dask_array/_core_utils.py",
+  "    if not allints and shape is not None:\n        if not all(c == s or (math.isnan(c) or math.isnan(s)) for c, s in zip(map(sum, chunks), shape)):\n            raise ValueError(f\"Chunks do not add up to shape. Got chunks={chunks}, shape={shape}\")\n",
+  "", expect="adds-up-to-shape")
+V("c16-sum-check-only-for-tuples", "C16", "R16.2", "dask_array/_core_utils.py",
+  "    if not allints and shape is not None:\n        if not all(c == s", "    if not allints and shape is not None and len(shape) > 1:\n        if not all(c == s", expect="normalize_chunks")
+V("c16-sum-check-tolerant", "C16", "R16.1", "dask_array/_core_utils.py",
+  "        if not all(c == s or (math.isnan(c) or math.isnan(s)) for c, s in zip(map(sum, chunks), shape)):", "        if not all(c <= s or (math.isnan(c) or math.isnan(s)) for c, s in zip(map(sum, chunks), shape)):", expect="normalize_chunks")
+V("c16-negative-bytes-accepted", "C16", "R16.1", "dask_array/_core_utils.py",
+  "            if parsed < 0:\n                raise ValueError(f\"String chunk byte sizes must not be negative. Got {c!r}\")\n", "", expect="normalize_chunks")
+V("c16-empty-tuple-accepted", "C16", "R16.2", "dask_array/_core_utils.py",
+  "    for c in chunks:\n        if not c:\n            raise ValueError(\n                \"Empty tuples are not allowed in chunks. Express zero length dimensions with 0(s) in chunks\"\n            )\n", "", expect="empty-tuple")
+V("c16-twin-rename", "C16", "-", "dask_array/_core_utils.py", None, None, twin=True, edits=[
+  ("dask_array/_core_utils.py", "            parsed = parse_bytes(c)\n            if parsed < 0:", "            nbytes = parse_bytes(c)\n            if nbytes < 0:"),
+  ("dask_array/_core_utils.py", "            if limit is None:\n                limit = parsed\n            elif parsed != limit:\n                raise ValueError(f\"Only one consistent value of limit or chunk is allowed. Used {parsed} != {limit}\")", "            if limit is None:\n                limit = nbytes\n            elif nbytes != limit:\n                raise ValueError(f\"Only one consistent value of limit or chunk is allowed. Used {nbytes} != {limit}\")"),
+])
